@@ -4,6 +4,7 @@ Decided: L1 no live drop of a message or of an un-exhausted source, L2 no clone,
 container/iterator operation, K3 index/return pairing, L6 end-of-stream discipline, O1 key-based
 heap comparator.  Not decided: ordering by reception time (heap semantics), tie behaviour."""
 import re
+from facts import Operand
 import guards
 from cfg import CFG
 from expr import ExprBuilder, show, walk
@@ -77,6 +78,8 @@ def run(F, chk):
 
     O1 = chk.rule('O1', 'heap comparator of the merge is key-based (cmp of the same key expression of both arguments)')
     comparators.check(F, O1, lambda b: b.impl_self and any(b.impl_self.startswith(t) for t in tys), floor=1)
+    O2 = chk.rule('O2', 'the merge heap is ordered by the reception time of the head message itself (directly, or through a key field stored verbatim)')
+    check_merge_key(F, tys, O2)
 
 
 def is_self_index(e):
@@ -247,3 +250,70 @@ def check_single_source_shortcut(F, L8):
                 L8.violation(('sources-discarded', b.path), '%s can drop its container of sources at %s without a dominating proof that nothing is left in it (len() == 1 / exact size_hint): with an inexact size hint '
                              '(filter, flat_map) all sources after the first are silently lost' % (b.path, b.loc(blk.term.sp)), where=b.loc(blk.term.sp))
     L8.floor('drops of a source container in the multi-iterator constructors', n, 2)
+
+
+# ---------------------------------------------------------------------------------------------
+# O2: the merge key is the reception time itself
+
+def check_merge_key(F, tys, O2):
+    """"if every source is ordered by reception time, the merged stream is ordered by reception time": the heap of source heads
+    must be ordered by the head message's `reception_time_us` itself.  The comparator of the heap entry compares either that
+    field directly, or a cached key field all of whose writers store the message's reception time verbatim (no shift, mask,
+    narrowing cast, scaling or packing - those identify different times)."""
+    import comparators
+    comps = [x for x in comparators.find_comparators(F, lambda b: b.impl_self and any(b.impl_self.startswith(t) for t in tys)) if x[0] in ('ord', 'cmp2')]
+    O2.floor('comparators of the merge heap entries', len(comps), 1)
+    lib = [b for b in F.order if b.crate == 'lib']
+    for kind, body, user in comps:
+        O2.fn(body.path)
+        O2.sites += 1
+        cfg = CFG(body)
+        E = ExprBuilder(cfg, fold_named=True)
+        keys = set()
+        for blk in body.calls():
+            if blk.term.callee.path in ('std::cmp::Ord::cmp', 'std::cmp::PartialOrd::partial_cmp') or blk.term.callee.path.endswith('::cmp'):
+                for a in blk.term.args[:2]:
+                    if a.place is not None:
+                        pl = cfg.origin_of_operand(a)
+                        fl = [e for e in (pl.p if pl is not None else []) if e['k'] == 'f']
+                        if fl:
+                            keys.add((fl[-1].get('o'), fl[-1]['n'], fl[-1]['i']))
+        if not keys:
+            O2.violation(('merge-key-unknown', body.path), 'cannot determine the field compared by %s' % body.path, where=body.loc(None))
+            continue
+        bad = None
+        for (owner, name, idx) in keys:
+            if name == 'reception_time_us' and owner == 'adlt::dlt::DltMessage':
+                continue
+            # cached key field: every writer stores a verbatim reception time
+            import c03
+            ws = []
+            for b2 in lib:
+                for blk in b2.blocks:
+                    if blk.cleanup:
+                        continue
+                    for s in blk.stmts:
+                        if s.k != 'assign':
+                            continue
+                        if s.rv['k'] == 'agg' and s.rv.get('adt') == owner and len(s.rv['ops']) > idx:
+                            ws.append((b2, s, Operand(s.rv['ops'][idx])))
+                        else:
+                            fl = [e for e in s.place.p if e['k'] == 'f']
+                            if fl and fl[-1].get('o') == owner and fl[-1]['n'] == name and s.place.p[-1] is fl[-1]:
+                                ws.append((b2, s, Operand(s.rv['o']) if s.rv['k'] in ('use', 'cast') else None))
+            if not ws:
+                bad = 'the compared field %s.%s has no writer' % (owner, name)
+            for (b2, s, o) in ws:
+                if o is None:
+                    bad = 'the key field %s is stored from a computed value at %s' % (name, b2.loc(s.sp))
+                    continue
+                e = ExprBuilder(CFG(b2), fold_named=True).operand(o)
+                se = show(e)
+                pure = isinstance(e, tuple) and e[0] in ('place', 'proj') and se.endswith('reception_time_us')
+                if not pure:
+                    bad = 'the key field `%s` is stored as %s at %s - not the reception time itself' % (name, se[:70], b2.loc(s.sp))
+        if bad:
+            O2.violation(('merge-key-not-reception-time', body.path), 'the merge heap is ordered by %s: %s; sources sorted by reception time no longer give a merged stream sorted by reception time' %
+                         (sorted(k[1] for k in keys), bad), where=body.loc(None))
+        else:
+            O2.ok(sample={'comparator': body.path, 'key': sorted(k[1] for k in keys), 'is': 'the reception time of the head message (verbatim)'})
